@@ -17,6 +17,14 @@ CONSTANTS Ops,          \* set of operation ids (naturals)
           ConsumeAll,   \* BOOLEAN
           MaxCuts, MaxTimeouts
 
+\* Overridable parameters (defaults = the code as it is):
+\*   MaxWrongIds: answers the broker may send with a correlation id that is not the request's (a framing error);
+\*   CloseOnNoProgress: waitResponse closes the connection when it reports io.ErrNoProgress (finding F20: it did not,
+\*   the foreign frame stayed in the buffer and was later taken by the operation whose id it happened to carry).
+MaxWrongIds == 1
+CloseOnNoProgress == TRUE
+NoCloseOnNoProgress == FALSE
+
 VARIABLES
   op,         \* o -> [pc, id, result, frame]
   corr,       \* Conn.correlationID
@@ -24,7 +32,8 @@ VARIABLES
   rlock,      \* 0 (free) or the operation holding Conn.rlock
   closed,     \* the client closed the connection
   reqs,       \* operations in the order their requests reached the wire
-  stream,     \* response frames written by the broker: [op |-> o, kerr |-> BOOLEAN]
+  stream,     \* response frames written by the broker: [op |-> o, kerr |-> BOOLEAN, forged |-> BOOLEAN]; op = the operation
+              \* whose correlation id the frame carries; forged: that is not the request it answers
   deliv,      \* per frame: "none" | "hdr" | "full"
   peerClosed, \* the broker end is gone: nothing more will be delivered
   rpos,       \* frames consumed (completely or not) by the client
@@ -37,7 +46,7 @@ Init ==
   /\ op = [o \in Ops |-> [pc |-> "idle", id |-> 0, result |-> "none", frame |-> 0]]
   /\ corr = 0 /\ inflight = 0 /\ rlock = 0 /\ closed = FALSE
   /\ reqs = <<>> /\ stream = <<>> /\ deliv = <<>> /\ peerClosed = FALSE
-  /\ rpos = 0 /\ mis = FALSE /\ faults = [cuts |-> 0, timeouts |-> 0]
+  /\ rpos = 0 /\ mis = FALSE /\ faults = [cuts |-> 0, timeouts |-> 0, wrongids |-> 0]
 
 Finish(o, res, f) == [op EXCEPT ![o].pc = "done", ![o].result = res, ![o].frame = f]
 
@@ -58,9 +67,18 @@ DoRequest(o) ==
 \* the broker answers the next request, in order, with success or a Kafka error code
 BrokerReply(kerr) ==
   /\ ~peerClosed /\ Len(stream) < Len(reqs)
-  /\ stream' = Append(stream, [op |-> reqs[Len(stream) + 1], kerr |-> kerr])
+  /\ stream' = Append(stream, [op |-> reqs[Len(stream) + 1], kerr |-> kerr, forged |-> FALSE])
   /\ deliv' = Append(deliv, "none")
   /\ UNCHANGED <<op, corr, inflight, rlock, closed, reqs, peerClosed, rpos, mis, faults>>
+
+\* the broker answers the next request with a frame that carries another operation's correlation id
+BrokerReplyWrongId(o2) ==
+  /\ ~peerClosed /\ Len(stream) < Len(reqs) /\ faults.wrongids < MaxWrongIds
+  /\ o2 # reqs[Len(stream) + 1]
+  /\ stream' = Append(stream, [op |-> o2, kerr |-> FALSE, forged |-> TRUE])
+  /\ deliv' = Append(deliv, "none")
+  /\ faults' = [faults EXCEPT !.wrongids = @ + 1]
+  /\ UNCHANGED <<op, corr, inflight, rlock, closed, reqs, peerClosed, rpos, mis>>
 
 \* the network delivers the next piece of the stream
 Deliver(f) ==
@@ -97,7 +115,8 @@ PeekOK(o) ==
            THEN /\ op' = Finish(o, "noProgress", 0)               \* io.ErrNoProgress
                 /\ inflight' = inflight - 1 /\ UNCHANGED rlock
            ELSE UNCHANGED <<op, rlock, inflight>>                 \* yield and retry
-  /\ UNCHANGED <<corr, closed, reqs, stream, deliv, peerClosed, rpos, mis, faults>>
+  /\ closed' = IF ~(~mis /\ stream[Next1].op = o) /\ inflight = 1 /\ CloseOnNoProgress THEN TRUE ELSE closed
+  /\ UNCHANGED <<corr, reqs, stream, deliv, peerClosed, rpos, mis, faults>>
 
 \* peek failed: EOF / reset after the peer went away, use of a closed connection, or the deadline
 PeekErr(o, why) ==
@@ -136,6 +155,7 @@ Next ==
   \/ \E o \in Ops : DoRequest(o) \/ PeekOK(o) \/ ReadBody(o)
                      \/ \E w \in {"eof", "closed", "timeout"} : PeekErr(o, w) \/ ReadErr(o, w)
   \/ \E k \in BOOLEAN : BrokerReply(k)
+  \/ \E o2 \in Ops : BrokerReplyWrongId(o2)
   \/ \E f \in DOMAIN deliv : Deliver(f)
   \/ Cut
 
@@ -146,9 +166,12 @@ FairSpec == Spec /\ WF_vars(Next)
 Done(o) == op[o].pc = "done"
 
 \* C06: a call only ever consumes the frame that answers its own request
+\* (a broker that answers with correlation ids of other pending or future requests can defeat any client: the clause is
+\* claimed for brokers that echo the id; what the library owes after a foreign id is C11: an error and a closed connection)
 C06_OwnResponse ==
+  faults.wrongids = 0 =>
   \A o \in Ops : op[o].result \in {"response", "kafkaError"} =>
-      /\ op[o].frame \in DOMAIN stream /\ stream[op[o].frame].op = o
+      /\ op[o].frame \in DOMAIN stream /\ stream[op[o].frame].op = o /\ ~stream[op[o].frame].forged
 
 \* C11: a Kafka error leaves the connection open and aligned ...
 C11_KafkaErrKeeps ==
